@@ -5,7 +5,7 @@ V=$(cd "$(dirname "$0")/.." && pwd)
 W=/tmp/rebase-wt
 git -C /repo worktree remove --force $W 2>/dev/null; rm -rf $W
 git -C /repo worktree add -q --detach $W HEAD
-for p in "$V"/seeded/*/patch.diff "$V"/harmless/*.diff "$V"/harmless2/*.diff; do
+for p in "$V"/seeded/*/patch.diff "$V"/harmless/*.diff "$V"/harmless2/*.diff "$V"/harmless3/*.diff; do
   (cd $W && git checkout -q -- . && git clean -qfd)
   if (cd $W && git apply --check "$p" 2>/dev/null); then continue; fi
   if (cd $W && git apply --3way "$p" >/dev/null 2>&1) && ! (cd $W && git diff --name-only --diff-filter=U | grep -q .); then
